@@ -365,6 +365,11 @@ def main():
             feat = [f for f, c in (("private", any(p["priv"] for p in x["sig"])), ("alias", any(len(p["keys"]) > 1 for p in x["sig"])),
                                    ("posonly", "po" in kinds), ("varargs", "va" in kinds), ("varkw", "vk" in kinds)) if c]
             key = "C08|%s|%s|%s" % (t[2], x["ctx"], "+".join(feat) or "plain")
+            po = [p for p in x["sig"] if p["kind"] == "po"]
+            npos = len(x["call"]["pos"])
+            if t[2] == "wrong-binding" and any(po[i]["priv"] and po[i]["hasdef"] and i >= npos and
+                                               any(not q["priv"] and q["hasdef"] for q in po[i + 1:]) for i in range(len(po))):
+                key = "C08|wrong-binding|omitted-private-positional-only-default"
         ck.violation(key, t[2], x)
     mv = r.tagged("MVIOL")
     if mv:
